@@ -72,6 +72,27 @@ func init() {
 		Assumptions: []string{"Go memory model edges: go statement, WaitGroup Done->Wait, critical sections of one mutex totally ordered; the semaphore is taken at its maximal capacity (concurrency >= number of checkers), its channel edges are not used for ordering",
 			"Checker.Check is summarised as: reads the shared syntax/types/context, writes checker-owned state only (established by C05)",
 			"3 workers / 3 concurrent passes; branches inside the walked functions are over-approximated (all instructions of all blocks are events)"}}
+	properties["C17"] = &property{ID: "C17", Level: "model_checking", Kinds: []string{"groups"},
+		Harnesses: []harness{
+			{Name: "gsxC17Groups", Pkg: "checkers", Quick: map[string]int{"strlen": 4, "paths": 4000, "wall_s": 120}, Replay: "none", NoValidate: true, MustReach: []string{"initialised"}},
+		},
+		Assumptions: []string{"the rule engine is a model: LoadFromIR records the group filter's answers for 1-2 symbolic rule groups, LoadedGroups returns them",
+			"'precompiled data equals compiled source' and 'documentation lists exactly the registered checkers' are artefact equalities without a symbolic dimension: not covered (see DESIGN.md)"}}
+	properties["C08"] = &property{ID: "C08", Level: "model_checking",
+		Harnesses: []harness{
+			{Name: "gsxC08Forward", Pkg: "checkers/analyzer", Quick: map[string]int{"strlen": 6, "paths": 3000, "wall_s": 240}, MustReach: []string{"pass returned", "fix forwarded"}},
+			{Name: "gsxC16CheckPackage", Pkg: "cmd/go-critic", Quick: map[string]int{"strlen": 8}, MustReach: []string{"checked"}},
+			{Name: "gsxC16CheckPackage", Pkg: "cmd/gocritic", Quick: map[string]int{"strlen": 8}, MustReach: []string{"checked"}},
+			{Name: "gsxC08OfferCLI", Pkg: "cmd/go-critic", Quick: map[string]int{"strlen": 9, "paths": 400, "wall_s": 240}, ReplayFn: replayC08Offer, NoValidate: true, MustReach: []string{"main ended"}},
+			{Name: "gsxC08OfferCLI", Pkg: "cmd/gocritic", Quick: map[string]int{"strlen": 9, "paths": 400, "wall_s": 240}, ReplayFn: replayC08Offer, NoValidate: true, MustReach: []string{"main ended"}},
+			{Name: "gsxC08OfferAnalysis", Pkg: "cmd/go-critic-analysis", Quick: map[string]int{"strlen": 9, "paths": 400, "wall_s": 240}, ReplayFn: replayC08Offer, NoValidate: true, MustReach: []string{"main ended"}},
+			{Name: "gsxC08OfferAnalysis", Pkg: "cmd/gocritic-analysis", Quick: map[string]int{"strlen": 9, "paths": 400, "wall_s": 240}, ReplayFn: replayC08Offer, NoValidate: true, MustReach: []string{"main ended"}},
+			{Name: "gsxC08ParamCLI", Pkg: "cmd/go-critic", Quick: map[string]int{"strlen": 3, "paths": 400, "wall_s": 240}, ReplayFn: replayC08Param, NoValidate: true, MustReach: []string{"main ended"}},
+			{Name: "gsxC08ParamCLI", Pkg: "cmd/gocritic", Quick: map[string]int{"strlen": 3, "paths": 400, "wall_s": 240}, ReplayFn: replayC08Param, NoValidate: true, MustReach: []string{"main ended"}},
+			{Name: "gsxC08ParamAnalysis", Pkg: "cmd/go-critic-analysis", Quick: map[string]int{"strlen": 3, "paths": 400, "wall_s": 240}, ReplayFn: replayC08Param, NoValidate: true, MustReach: []string{"main ended"}},
+			{Name: "gsxC08ParamAnalysis", Pkg: "cmd/gocritic-analysis", Quick: map[string]int{"strlen": 3, "paths": 400, "wall_s": 240}, ReplayFn: replayC08Param, NoValidate: true, MustReach: []string{"main ended"}},
+		},
+		Assumptions: []string{"environment models: the sub-command runner calls the check command with the given arguments; the stock single-checker driver sets the analyzer flags and runs the analyzer once on a package; package loading returns no packages; the rule engine is the C17 model with two built-in rule groups that exist from process start"}}
 	properties["C11"] = &property{ID: "C11", Level: "translation_validation", Extra: runC11, ReplayExtra: replayC11,
 		Assumptions: []string{"patterns: the repository's own examples plus a bounded grammar (see evidence); Go's regexp/syntax parser is the semantics' front end; subjects are byte strings"}}
 	properties["C07"] = &property{
@@ -109,6 +130,7 @@ func init() {
 			{Name: "gsxC15ParseValue", Pkg: "linter", Quick: map[string]int{"strlen": 8}, MustReach: []string{"parsed"}},
 			{Name: "gsxC15Compare", Pkg: "linter", Solver: "z3", Quick: map[string]int{}, MustReach: []string{"compared"}},
 			{Name: "gsxC15SetGoVersion", Pkg: "linter", Quick: map[string]int{"strlen": 6}, MustReach: []string{"set"}},
+			{Name: "gsxC15RunVersion", Pkg: "checkers", Solver: "z3", Quick: map[string]int{"strlen": 4, "paths": 2000, "wall_s": 60}, ReplayFn: replayRuleVersion, NoValidate: true, MustReach: []string{"embedded run"}},
 		},
 		Assumptions: []string{"integer arithmetic on symbolic values is mathematical (no overflow)", "version strings up to 8 bytes"},
 	}
